@@ -110,8 +110,15 @@ func c06FetchSet(d *c12Dag, viol func(sig, detail string), r *core.Run) {
 		if len(missing) > 0 {
 			class := ""
 			if d.tree != nil {
-				empty := d.tree.EmptySpan()
-				class = " empty-chunks-only"
+				// leading empty chunks are the known finding; an empty chunk
+				// that follows data is opened by the unmodified reader
+				lead, empty := d.tree.LeadingEmpty(), d.tree.EmptySpan()
+				class = " leading-empty-chunks-only"
+				for _, m := range missing {
+					if !lead[m.KeyString()] {
+						class = " empty-chunks-only"
+					}
+				}
 				for _, m := range missing {
 					if !empty[m.KeyString()] {
 						class = ""
@@ -137,6 +144,9 @@ func c06Withheld(d *c12Dag, via string, miss cid.Cid, kind store.ErrKind, viol f
 		class := ""
 		if d.tree != nil && d.tree.EmptySpan()[miss.KeyString()] {
 			class = " empty-chunks-only"
+			if d.tree.LeadingEmpty()[miss.KeyString()] {
+				class = " leading-empty-chunks-only"
+			}
 		}
 		viol("partial-entity-no-error "+via+" "+d.c.Kind+class, fmt.Sprintf("%s: block %s (kind %d) is unavailable but %s returned no error", d.c, short(miss), kind, via))
 	}
